@@ -993,3 +993,372 @@ def classify(case, impl):
     elif case["kind"] == "eig":
         tags += ["eig:" + case["name"]]
     return tags
+
+
+# --------------------------------------------------------------------------
+# translator: named eigenvalue sequences and the cluster split, from the source as it is NOW
+# --------------------------------------------------------------------------
+# `translate()` (run by `run.py` before the proof step) parses FDApy/simulation/karhunen.py with
+# `ast` and writes lean/FDAModel/Generated/Eigenvalues.lean: exact definitions of what the source
+# says (element `i`, 0-based, of each `_eigenvalues_<name>(n)`; for exponential / sqrt the rational
+# skeleton — the argument of `exp`, base and exponent of the power; `np.pi` becomes a parameter),
+# the length of each sequence (index convention), and the cluster sizes of `_make_coef`.
+# Props/C19.lean proves that these generated definitions equal the model's; an edit of a formula
+# then breaks a proof obligation.  When the source shape is not recognised (a refactor) nothing is
+# reported: the last generated section is kept and the evidence says the tie rests on the
+# correspondence only.
+
+import ast  # noqa: E402
+import os  # noqa: E402
+
+import common  # noqa: E402
+
+GEN_FILE = os.path.join(common.LEAN_DIR, "FDAModel", "Generated", "Eigenvalues.lean")
+TRANSLATOR_NOTES = []
+EIG_KINDS = {"linear": "rat", "quadratic": "rat", "inverse": "rat", "exponential": "exp", "sqrt": "pow", "wiener": "ratpi"}
+
+
+class NotRecognised(Exception):
+    pass
+
+
+def _attr_name(node):
+    """`np.exp` -> 'exp', `numpy.linalg.x` -> 'x', bare name -> name"""
+    if isinstance(node, ast.Attribute):
+        return node.attr
+    if isinstance(node, ast.Name):
+        return node.id
+    return None
+
+
+def _const(node, env=None):
+    """Constant folding: exact rational value of a constant expression (decimal literals exactly)."""
+    env = env or {}
+    if isinstance(node, ast.Constant) and isinstance(node.value, (int, float)) and not isinstance(node.value, bool):
+        return Fraction(repr(node.value)) if isinstance(node.value, float) else Fraction(node.value)
+    if isinstance(node, ast.Name) and node.id in env:
+        return _const(env[node.id], {k: v for k, v in env.items() if k != node.id})
+    if isinstance(node, ast.UnaryOp) and isinstance(node.op, (ast.USub, ast.UAdd)):
+        v = _const(node.operand, env)
+        return -v if isinstance(node.op, ast.USub) else v
+    if isinstance(node, ast.BinOp):
+        a, b = _const(node.left, env), _const(node.right, env)
+        if isinstance(node.op, ast.Add):
+            return a + b
+        if isinstance(node.op, ast.Sub):
+            return a - b
+        if isinstance(node.op, ast.Mult):
+            return a * b
+        if isinstance(node.op, ast.Div) and b != 0:
+            return a / b
+        if isinstance(node.op, ast.Pow) and b.denominator == 1 and (a != 0 or b >= 0):
+            return a ** int(b)
+    raise NotRecognised("not a constant")
+
+
+def _lean_q(q: Fraction) -> str:
+    return f"({q.numerator} : Rat)" if q.denominator == 1 else f"(({q.numerator} : Rat) / {q.denominator})"
+
+
+class _Irrational(Exception):
+    def __init__(self, kind, parts):
+        self.kind, self.parts = kind, parts
+
+
+class _ExprTr:
+    """Python expression -> Lean `Rat` term in `n`, `i` (element index, 0-based) and, if used, `pi`."""
+
+    def __init__(self, nname, env):
+        self.nname, self.env = nname, dict(env)
+        self.uses_pi = False
+        self.aranges = []   # (lean start, lean stop) over Int in n
+        self.loopvar = {}
+
+    def int_term(self, node):
+        """integer-valued term in n, over Int (bounds of arange / range)"""
+        try:
+            q = _const(node, {})
+            if q.denominator == 1:
+                return f"({q.numerator} : Int)"
+        except NotRecognised:
+            pass
+        if isinstance(node, ast.Name):
+            if node.id == self.nname:
+                return "(n : Int)"
+            if node.id in self.env:
+                return self.int_term(self.env[node.id])
+        if isinstance(node, ast.BinOp) and isinstance(node.op, (ast.Add, ast.Sub, ast.Mult)):
+            op = {ast.Add: "+", ast.Sub: "-", ast.Mult: "*"}[type(node.op)]
+            return f"({self.int_term(node.left)} {op} {self.int_term(node.right)})"
+        raise NotRecognised("bound of arange/range")
+
+    def index_elem(self, args):
+        """element `i` of np.arange(a, b[, 1]) / range(a, b): a + i"""
+        if len(args) == 1:
+            a, b = ast.Constant(0), args[0]
+        elif len(args) == 2 or (len(args) == 3 and _const(args[2]) == 1):
+            a, b = args[0], args[1]
+        else:
+            raise NotRecognised("arange with a step")
+        self.aranges.append((self.int_term(a), self.int_term(b)))
+        return f"({self.tr(a)} + (i : Rat))"
+
+    def tr(self, node):
+        try:
+            return _lean_q(_const(node, {}))
+        except NotRecognised:
+            pass
+        if isinstance(node, ast.Name):
+            if node.id == self.nname:
+                return "(n : Rat)"
+            if node.id in self.loopvar:
+                return self.loopvar[node.id]
+            if node.id in self.env:
+                return self.tr(self.env[node.id])
+            raise NotRecognised(f"free name {node.id}")
+        if isinstance(node, ast.Attribute) and node.attr == "pi":
+            self.uses_pi = True
+            return "pi"
+        if isinstance(node, ast.UnaryOp) and isinstance(node.op, (ast.USub, ast.UAdd)):
+            return f"(-{self.tr(node.operand)})" if isinstance(node.op, ast.USub) else self.tr(node.operand)
+        if isinstance(node, ast.BinOp):
+            if isinstance(node.op, ast.Pow):
+                return self.power(node.left, node.right)
+            if type(node.op) in (ast.Add, ast.Sub, ast.Mult, ast.Div):
+                op = {ast.Add: "+", ast.Sub: "-", ast.Mult: "*", ast.Div: "/"}[type(node.op)]
+                return f"({self.tr(node.left)} {op} {self.tr(node.right)})"
+        if isinstance(node, ast.ListComp) and len(node.generators) == 1 and not node.generators[0].ifs:
+            g = node.generators[0]
+            if isinstance(g.target, ast.Name) and isinstance(g.iter, ast.Call) and _attr_name(g.iter.func) in ("range", "arange"):
+                self.loopvar[g.target.id] = self.index_elem(g.iter.args)
+                return self.tr(node.elt)
+        if isinstance(node, ast.Call):
+            f = _attr_name(node.func)
+            if f == "arange":
+                return self.index_elem(node.args)
+            if f in ("array", "asarray", "float64", "float") and len(node.args) >= 1:
+                return self.tr(node.args[0])
+            if f in ("power", "float_power") and len(node.args) == 2:
+                return self.power(node.args[0], node.args[1])
+            if f == "sqrt" and len(node.args) == 1:
+                return self.power(node.args[0], ast.BinOp(ast.Constant(1), ast.Div(), ast.Constant(2)))
+            if f == "reciprocal" and len(node.args) == 1:
+                return f"((1 : Rat) / {self.tr(node.args[0])})"
+            if f == "exp" and len(node.args) == 1:
+                raise _Irrational("exp", [self.tr(node.args[0])])
+        raise NotRecognised(ast.dump(node)[:80])
+
+    def power(self, base, expo):
+        e = _const(expo, self.env)
+        b = self.tr(base)
+        if e.denominator == 1:
+            k = abs(int(e))
+            prod = "(1 : Rat)" if k == 0 else "(" + " * ".join([b] * k) + ")"
+            return prod if e >= 0 else f"((1 : Rat) / {prod})"
+        raise _Irrational("pow", [b, _lean_q(e)])
+
+
+def _function_table(tree):
+    """name -> (first parameter name, return expression, local simple assignments)"""
+    out = {}
+    for node in tree.body:
+        if isinstance(node, ast.FunctionDef):
+            env, ret = {}, None
+            for st in node.body:
+                if isinstance(st, ast.Assign) and len(st.targets) == 1 and isinstance(st.targets[0], ast.Name):
+                    env[st.targets[0].id] = st.value
+                elif isinstance(st, ast.Return) and st.value is not None:
+                    ret = st.value
+            if ret is not None and node.args.args:
+                out[node.name] = (node.args.args[0].arg, ret, env)
+        elif isinstance(node, ast.Assign) and len(node.targets) == 1 and isinstance(node.targets[0], ast.Name) and isinstance(node.value, ast.Lambda):
+            lam = node.value
+            if lam.args.args:
+                out[node.targets[0].id] = (lam.args.args[0].arg, lam.body, {})
+    return out
+
+
+def _eig_section(tree, src_lines):
+    table = _function_table(tree)
+    lines = []
+    for name, want in EIG_KINDS.items():
+        fn = f"_eigenvalues_{name}"
+        if fn not in table:
+            raise NotRecognised(f"{fn} not found as a module-level def / lambda with a return expression")
+        nname, ret, env = table[fn]
+        tr = _ExprTr(nname, env)
+        C = name.capitalize()
+        text = ast.unparse(ret)
+        try:
+            body = tr.tr(ret)
+            kind = "ratpi" if tr.uses_pi else "rat"
+            parts = [body]
+        except _Irrational as ir:
+            kind, parts = ir.kind, ir.parts
+        if kind != want:
+            raise NotRecognised(f"{fn}: expression `{text}` is of kind {kind}, expected {want}")
+        if len(set(tr.aranges)) != 1:
+            raise NotRecognised(f"{fn}: expected exactly one index range, found {len(set(tr.aranges))}")
+        a, b = tr.aranges[0]
+        lines.append(f"/-- `{fn}(n)`: the source returns `{text}`; element `i` (0-based) -/")
+        if kind == "rat":
+            lines.append(f"def eig{C}Src (n i : Nat) : Rat := {parts[0]}")
+        elif kind == "ratpi":
+            lines.append(f"def eig{C}Src (pi : Rat) (n i : Nat) : Rat := {parts[0]}")
+        elif kind == "exp":
+            lines.append(f"def eig{C}ArgSrc (n i : Nat) : Rat := {parts[0]}   -- the sequence is `exp` of this")
+        else:
+            lines.append(f"def eig{C}BaseSrc (n i : Nat) : Rat := {parts[0]}   -- the sequence is this base …")
+            lines.append(f"def eig{C}ExpSrc : Rat := {parts[1]}   -- … to this power")
+        lines.append(f"/-- number of elements of that sequence (stop - start of its index range) -/")
+        lines.append(f"def eig{C}LenSrc (n : Nat) : Int := {b} - {a}")
+        lines.append("")
+    return "\n".join(lines)
+
+
+def _nat_term(node, names):
+    """Python integer expression in the two size names -> Lean Nat term in n, k"""
+    if isinstance(node, ast.Constant) and isinstance(node.value, int):
+        return str(node.value)
+    if isinstance(node, ast.Name) and node.id in names:
+        return names[node.id]
+    if isinstance(node, ast.BinOp) and type(node.op) in (ast.Add, ast.Sub, ast.Mult, ast.FloorDiv, ast.Mod):
+        op = {ast.Add: "+", ast.Sub: "-", ast.Mult: "*", ast.FloorDiv: "/", ast.Mod: "%"}[type(node.op)]
+        return f"({_nat_term(node.left, names)} {op} {_nat_term(node.right, names)})"
+    raise NotRecognised("size expression " + ast.dump(node)[:60])
+
+
+def _subst(node, env, depth=0):
+    """inline simple local assignments (names -> expressions)"""
+    if depth > 6:
+        return node
+
+    class T(ast.NodeTransformer):
+        def visit_Name(self, n):
+            if n.id in env:
+                return _subst(env[n.id], {k: v for k, v in env.items() if k != n.id}, depth + 1)
+            return n
+
+    import copy
+
+    return T().visit(copy.deepcopy(node))
+
+
+def _label_section(tree):
+    """Find, in any function, `sizes = np.ones(k, dtype=int) * base` (or `np.full(k, base)`,
+    `np.zeros(k) + base`) followed by `sizes[lo:hi] += c`."""
+    for fn in [x for x in ast.walk(tree) if isinstance(x, ast.FunctionDef)]:
+        env = {}
+        created = {}
+        for st in fn.body:
+            if isinstance(st, ast.Assign) and len(st.targets) == 1:
+                tgt = st.targets[0]
+                if isinstance(tgt, ast.Name):
+                    arr = _array_ctor(st.value)
+                    if arr is not None:
+                        created[tgt.id] = arr
+                    else:
+                        env[tgt.id] = st.value
+                elif isinstance(tgt, ast.Tuple) and isinstance(st.value, ast.Tuple) and len(tgt.elts) == len(st.value.elts):
+                    for t, v in zip(tgt.elts, st.value.elts):
+                        if isinstance(t, ast.Name):
+                            env[t.id] = v
+            elif isinstance(st, ast.AugAssign) and isinstance(st.op, ast.Add) and isinstance(st.target, ast.Subscript) \
+                    and isinstance(st.target.value, ast.Name) and st.target.value.id in created and isinstance(st.target.slice, ast.Slice):
+                size, base = created[st.target.value.id]
+                # only integer expressions of plain names are inlined (`k = centers.shape[1]` stays the name `k`)
+                env = {k: v for k, v in env.items()
+                       if all(isinstance(x, (ast.Name, ast.BinOp, ast.Constant, ast.operator, ast.Load)) for x in ast.walk(v))}
+                sl = st.target.slice
+                if sl.step is not None:
+                    raise NotRecognised("slice with a step in the cluster split")
+                size, base = _subst(size, env), _subst(base, env)
+                lo = _subst(sl.lower, env) if sl.lower is not None else None
+                hi = _subst(sl.upper, env) if sl.upper is not None else None
+                inc = _subst(st.value, env)
+                if not isinstance(size, ast.Name):
+                    raise NotRecognised("number of clusters is not a plain name")
+                kname = size.id
+                free = {x.id for e in (base, lo, hi) if e is not None for x in ast.walk(e) if isinstance(x, ast.Name)} - {kname}
+                if len(free) != 1:
+                    raise NotRecognised(f"cluster split uses names {sorted(free)}")
+                names = {kname: "k", free.pop(): "n"}
+                conds = []
+                if lo is not None:
+                    conds.append(f"{_nat_term(lo, names)} ≤ g")
+                if hi is not None:
+                    conds.append(f"g < {_nat_term(hi, names)}")
+                cond = " ∧ ".join(conds) if conds else "True"
+                text = f"{ast.unparse(st.target)} += {ast.unparse(st.value)} on sizes of base {ast.unparse(base)}"
+                return "\n".join([
+                    f"/-- `{fn.name}`: size of cluster `g` of `n` observations in `k` clusters; source: `{text}` -/",
+                    f"def clusterSizeSrc (n k g : Nat) : Nat := {_nat_term(base, names)} + (if {cond} then {_nat_term(inc, names)} else 0)",
+                    ""])
+    raise NotRecognised("no `sizes = ones(k) * base; sizes[lo:hi] += c` pattern found")
+
+
+def _array_ctor(node):
+    """(size, base value) of `np.ones(k, …) * base`, `base * np.ones(k)`, `np.full(k, base, …)`, `np.zeros(k, …) + base`"""
+    def ctor(c, name):
+        return isinstance(c, ast.Call) and _attr_name(c.func) == name and len(c.args) >= 1
+
+    if isinstance(node, ast.BinOp) and isinstance(node.op, ast.Mult):
+        for a, b in ((node.left, node.right), (node.right, node.left)):
+            if ctor(a, "ones"):
+                return a.args[0], b
+    if isinstance(node, ast.BinOp) and isinstance(node.op, ast.Add):
+        for a, b in ((node.left, node.right), (node.right, node.left)):
+            if ctor(a, "zeros"):
+                return a.args[0], b
+    if ctor(node, "full") and len(node.args) >= 2:
+        return node.args[0], node.args[1]
+    return None
+
+
+_SECTIONS = ("eigenvalues", "clusters")
+
+
+def _old_section(old, name):
+    if not old:
+        return None
+    a, b = f"-- BEGIN {name}\n", f"-- END {name}\n"
+    if a in old and b in old:
+        return old[old.index(a) + len(a): old.index(b)]
+    return None
+
+
+def translate():
+    TRANSLATOR_NOTES.clear()
+    path = os.path.join(common.REPO, "FDApy", "simulation", "karhunen.py")
+    old = open(GEN_FILE).read() if os.path.exists(GEN_FILE) else None
+    try:
+        src = open(path).read()
+        tree = ast.parse(src)
+    except (OSError, SyntaxError) as e:
+        TRANSLATOR_NOTES.append(f"translator: cannot read {path} ({e}); source shape not recognised, tie rests on the correspondence only")
+        return
+    sections = {}
+    for name, fn in (("eigenvalues", lambda: _eig_section(tree, src)), ("clusters", lambda: _label_section(tree))):
+        try:
+            sections[name] = fn()
+            TRANSLATOR_NOTES.append(f"translator: {name} translated from the current source")
+        except NotRecognised as e:
+            prev = _old_section(old, name)
+            TRANSLATOR_NOTES.append(f"translator: source shape not recognised for {name} ({e}); last generated definitions kept, tie rests on the correspondence only")
+            if prev is None:
+                return  # nothing to keep: leave the file as it is
+            sections[name] = prev
+    head = ("/-\nGENERATED by harness/c19.py `translate()` from FDApy/simulation/karhunen.py (named eigenvalue\n"
+            "sequences, cluster split of `_make_coef`).  Do not edit: regenerated on every run of `./check C19`.\n"
+            "Props/C19.lean proves that these definitions equal the model's (`FDAModel/SimulationRng.lean`).\n-/\n"
+            "set_option linter.unusedVariables false\nnamespace FDA.Generated\n\n")
+    body = "".join(f"-- BEGIN {n}\n{sections[n]}-- END {n}\n\n" for n in _SECTIONS)
+    text = head + body + "end FDA.Generated\n"
+    if text != old:
+        os.makedirs(os.path.dirname(GEN_FILE), exist_ok=True)
+        with open(GEN_FILE, "w") as fh:
+            fh.write(text)
+
+
+def extra_coverage(cases, impls, models):
+    return dict(translator=list(TRANSLATOR_NOTES), generated_file=os.path.relpath(GEN_FILE, common.VERIF))
